@@ -177,7 +177,6 @@ Section RkIndep.
   Lemma enter_rk : forall s, pkok s -> enter Eio s = enter Esl s.
   Proof.
     intros s Hp. unfold enter. norm. rk_go.
-    apply peek_error_rk. exact Hp.
   Qed.
   #[local] Hint Resolve enter_rk : rk.
 
@@ -208,16 +207,17 @@ Section RkIndep.
   Proof.
     intros s pe e ov s'. unfold exponent_front. cbv beta iota zeta.
     destruct (peek_or_null Esl (discard s)) as [[c s1]|c0 i0| |]; cbn [bind]; try (intros H; discriminate H).
-    match goal with |- context [next Esl ?x] => destruct (next Esl x) as [[o s3]|c0 i0| |] eqn:Hn end.
-    2-4: destruct (c =? 43); [|destruct (c =? 45)]; cbn [bind]; intros H; discriminate H.
-    assert (Hgoal : forall (pe0 : bool),
-      match o with
-      | Some c1 => if is_digit c1
-                   then let '(n, e0, ov0) := exp_loop (rest s3) (digit_val c1) in Ok (pe0, (e0, ov0), advance n s3)
-                   else @error (bool * (N * bool) * st) Esl s3 InvalidNumber
-      | None => error Esl s3 EofWhileParsingValue
-      end = Ok (pe, (e, ov), s') -> pk s' = false).
-    { intros pe0. destruct o as [c1|]; [|intros H; discriminate H].
+    assert (Hgoal : forall (pe0 : bool) (s2 : st),
+      (let* (o, s3) := next Esl s2 in
+       match o with
+       | Some c1 => if is_digit c1
+                    then let '(n, e0, ov0) := exp_loop (rest s3) (digit_val c1) in Ok (pe0, (e0, ov0), advance n s3)
+                    else @error (bool * (N * bool) * st) Esl s3 InvalidNumber
+       | None => error Esl s3 EofWhileParsingValue
+       end) = Ok (pe, (e, ov), s') -> pk s' = false).
+    { intros pe0 s2.
+      destruct (next Esl s2) as [[o s3]|c0 i0| |]; cbn [bind]; try (intros H; discriminate H).
+      destruct o as [c1|]; [|intros H; discriminate H].
       destruct (is_digit c1); [|intros H; discriminate H].
       destruct (exp_loop (rest s3) (digit_val c1)) as [[n e0] ov0].
       intros H; inversion H; reflexivity. }
@@ -399,4 +399,119 @@ Section RkIndep.
   Lemma ignored_item_rk : forall s, ignored_item Eio s = ignored_item Esl s.
   Proof. unfold ignored_item. rk_start. Qed.
 
+  Lemma parse_whitespace_nil : forall s, rest s = [] ->
+    parse_whitespace Esl s = Ok (None, mkSt [] (off s + 0) false (depth s)).
+  Proof.
+    intros s Hr. unfold parse_whitespace, peek, at_end, advance. change (tm Esl) with TEof.
+    rewrite Hr. reflexivity.
+  Qed.
+
+  (* one call of next(): equal observations, simulation preserved *)
+  Lemma stream_next_sim : forall itemp a b,
+    (forall s, itemp Eio s = itemp Esl s) -> ss_sim a b ->
+    fst (stream_next Eio itemp a) = fst (stream_next Esl itemp b) /\
+    ss_off (snd (stream_next Eio itemp a)) = ss_off (snd (stream_next Esl itemp b)) /\
+    ss_sim (snd (stream_next Eio itemp a)) (snd (stream_next Esl itemp b)).
+  Proof.
+    intros itemp a b Hitem [[Hab Hf] | (Hf & Hrest & Hoff)].
+    - (* not failed: the two states are identical *)
+      subst b. unfold stream_next.
+      change (is_io Eio) with true. change (is_io Esl) with false. rewrite Hf.
+      cbn [andb]. cbv beta iota.
+      change (parse_whitespace Eio) with (parse_whitespace Esl).
+      destruct (parse_whitespace_ok (ss_st a)) as (o & s1 & Hpw). rewrite Hpw.
+      destruct o as [b0|].
+      + rewrite Hitem. destruct (itemp Esl s1) as [[v s2]|c i| |].
+        * destruct ((b0 =? 91) || (b0 =? 34) || (b0 =? 123)).
+          -- cbn [fst snd ss_off]. split; [reflexivity|]. split; [reflexivity|].
+             left. split; reflexivity.
+          -- rewrite peek_end_of_value_rk.
+             destruct (peek_end_of_value Esl s2) as [s3|c i| |]; cbn [fst snd ss_off];
+               (split; [reflexivity|]; split; [reflexivity|]; left; split; reflexivity).
+        * unfold set_failed. change (is_io Eio) with true. change (is_io Esl) with false.
+          cbn [fst snd ss_off ss_st ss_failed]. split; [reflexivity|]. split; [reflexivity|].
+          right. cbn [ss_failed ss_st ss_off rest off]. repeat split; reflexivity.
+        * unfold set_failed. change (is_io Eio) with true. change (is_io Esl) with false.
+          cbn [fst snd ss_off ss_st ss_failed]. split; [reflexivity|]. split; [reflexivity|].
+          right. cbn [ss_failed ss_st ss_off rest off]. repeat split; reflexivity.
+        * unfold set_failed. change (is_io Eio) with true. change (is_io Esl) with false.
+          cbn [fst snd ss_off ss_st ss_failed]. split; [reflexivity|]. split; [reflexivity|].
+          right. cbn [ss_failed ss_st ss_off rest off]. repeat split; reflexivity.
+      + cbn [fst snd ss_off]. split; [reflexivity|]. split; [reflexivity|].
+        left. split; reflexivity.
+    - (* failed: io returns None on the flag, slice sees the truncated input *)
+      unfold stream_next at 1 3 5.
+      change (is_io Eio) with true. rewrite Hf. cbn [andb]. cbv beta iota. cbn [fst snd].
+      unfold stream_next. change (is_io Esl) with false. cbn [andb]. cbv beta iota.
+      rewrite (parse_whitespace_nil _ Hrest).
+      cbn [fst snd ss_off ss_st off rest].
+      split; [reflexivity|]. split; [rewrite Nat.add_0_r; exact Hoff|].
+      right. cbn [ss_st rest off]. split; [exact Hf|]. split; [reflexivity|].
+      rewrite Nat.add_0_r; exact Hoff.
+  Qed.
+
+  (* the general statement: histories from simulated states are equal *)
+  Theorem stream_run_sim : forall itemp, (forall s, itemp Eio s = itemp Esl s) ->
+    forall n a b, ss_sim a b -> stream_run n Eio itemp a = stream_run n Esl itemp b.
+  Proof.
+    intros itemp Hitem. induction n as [|n IH]; intros a b Hsim.
+    - reflexivity.
+    - cbn [stream_run].
+      destruct (stream_next_sim itemp a b Hitem Hsim) as (H1 & H2 & H3).
+      destruct (stream_next Eio itemp a) as [ia a'].
+      destruct (stream_next Esl itemp b) as [ib b'].
+      cbn [fst snd] in H1, H2, H3. subst ib. rewrite H2. f_equal. apply IH. exact H3.
+  Qed.
+
+  Lemma itemp_rk : forall itemp, (itemp = value_item \/ itemp = ignored_item) ->
+    forall s, itemp Eio s = itemp Esl s.
+  Proof.
+    intros itemp [Hi | Hi] s; subst itemp; [apply value_item_rk | apply ignored_item_rk].
+  Qed.
+
+  (* stream_run_rk as stated in the task (for ALL ss) is FALSE: a state whose `failed` flag is already
+     set makes the io iterator return None at once, while the slice iterator ignores the flag
+     (see [stream_run_rk_counterexample] below).  Strongest true variant on a common state: *)
+  Theorem stream_run_rk_partial : forall n itemp ss,
+    (itemp = value_item \/ itemp = ignored_item) -> ss_failed ss = false ->
+    stream_run n Eio itemp ss = stream_run n Esl itemp ss.
+  Proof.
+    intros n itemp ss Hi Hf. apply stream_run_sim.
+    - apply itemp_rk; exact Hi.
+    - left. split; [reflexivity|exact Hf].
+  Qed.
+
+  (* every stream starts from [stream_init bs] *)
+  Theorem stream_run_rk_init : forall n itemp bs,
+    (itemp = value_item \/ itemp = ignored_item) ->
+    stream_run n Eio itemp (stream_init bs) = stream_run n Esl itemp (stream_init bs).
+  Proof. intros n itemp bs Hi. apply stream_run_rk_partial; [exact Hi|reflexivity]. Qed.
+
 End RkIndep.
+
+(* the unrestricted stream statement fails on a state with the failed flag already set *)
+Example stream_run_rk_counterexample :
+  let c := mkCfg false false false false in
+  let ss := mkSS (init_st [49]) 0 true in
+  stream_run 1 (mkEnv RIo TEof c) value_item ss = [(None, 0%nat)] /\
+  stream_run 1 (mkEnv RSlice TEof c) value_item ss = [(Some (IVal (VNum (NPos 1))), 1%nat)].
+Proof. vm_compute. split; reflexivity. Qed.
+
+Check parse_value_rk.
+Check stream_run_rk_partial.
+Print Assumptions parse_value_rk.
+Print Assumptions parse_seq_rk.
+Print Assumptions parse_map_rk.
+Print Assumptions from_input_rk.
+Print Assumptions ignore_value_rk.
+Print Assumptions ignored_from_input_rk.
+Print Assumptions raw_value_rk.
+Print Assumptions stream_run_sim.
+Print Assumptions stream_run_rk_partial.
+Print Assumptions stream_run_rk_init.
+Print Assumptions stream_run_rk_counterexample.
+(* for comparison: the axioms listed above for the parse_value-family theorems are exactly those of the
+   MODEL definitions they mention (Flocq's Bmult/Bdiv/binary_normalize carry Reals-based proof terms);
+   the proofs in this file add none (cf. ignore_value_rk / stream_run_sim: closed). *)
+Print Assumptions parse_value.
+Print Assumptions f64_from_parts.
